@@ -65,8 +65,8 @@ CLAIMED.update({
     technique="static ordering (append-before-label with no intervening appender), linear-form inverse agreement, guard-dominates-index with linear facts",
     ref="DESIGN.md §4 C12"),
   "C15": dict(
-    text="Structural clauses, decided statically: in each of the three markup implementations the text returned by the function Render delegates to is shown (def-use) to be the trimmed result of ansi.Wrap/DumbWrap with exactly the requested width (sibling cross-check); Render is shown to return the cached text only on the cachedWidth == width edge and otherwise to store the fresh rendering together with the width it was rendered at; constructors initialise the pair from one rendering; nothing else writes it; an effects analysis shows the render functions write nothing but their own allocations and read no mutable package state, so the text is a function of content and width. The numeric width bound itself is NOT claimed (it rests on ansi.Wrap, C13).",
-    note="Not decided: that ansi.Wrap/DumbWrap honour their width (C13, not applicable); contents of the rendering.",
+    text="Structural clauses, decided statically: in each of the three markup implementations the text returned by the function Render delegates to is shown (def-use) to be the trimmed result of ansi.Wrap/DumbWrap with exactly the requested width (sibling cross-check); Render is shown to return the cached text only on the cachedWidth == width edge and otherwise to store the fresh rendering together with the width it was rendered at; constructors initialise the pair from one rendering; nothing else writes it; an effects analysis shows the render functions write nothing but their own allocations and read no mutable package state, so the text is a function of content and width. The numeric width bound of the wrapping functions themselves is decided under C13.R1/R2.",
+    note="That ansi.Wrap/DumbWrap honour their width is decided under C13.R1/R2, not here. Not decided: contents of the rendering.",
     technique="static def-use must-pass-through (final wrap), cache-pairing typestate, write-set (purity) analysis",
     ref="DESIGN.md §4 C15"),
 })
@@ -121,8 +121,15 @@ CLAIMED.update({
     ref="DESIGN.md §4 C18"),
 })
 
+CLAIMED.update({
+  "C13": dict(
+    text="The width clause only (word-wrapping and hard-wrapping yield lines of at most the width), decided by static inference of an inductive loop invariant: ansi.Wrap and ansi.DumbWrap are one loop over the matches of ansi.expand; every string is abstracted to an upper bound of its number of visible characters (of the whole string, or of its last line for an accumulator that receives line feeds; strings.Builder accumulators are followed through their Write/String/Reset calls), the state of the loop is the phis of its header (and the builders), and the strongest inductive invariant inside a template family of linear facts (n >= 0, n <= w, sums <= w, `m = 0 or sum <= w`, visible(s) <= n over the counters n, m, the strings s and the width w) is computed Houdini style over all acyclic header-to-header paths, case-splitting on disjunctive facts and on != tests, with exact linear arithmetic (simplex over the rationals). From that invariant and the branch facts of each path it is proved that every element appended to the slice Wrap joins with line feeds, and DumbWrap's accumulator at every point where a character or line feed is added, has at most `width` visible characters, for every text and every width >= 1; ansi.expand's pattern is checked with regexp/syntax to consume exactly one character outside escape sequences per match, and expand to return all matches. Content preservation, order, styling, word-breaking policy and the shapes produced by Pad/Indent/Snip are NOT claimed.",
+    note="Assumed: width >= 1 (the property's precondition); regexp semantics of FindAllStringSubmatch; a visible character is one match of ansi.expand. Not decided: that every non-whitespace character is kept with its styling in order, that line breaks between visible characters survive, that words are split only when longer than a line, Pad/Indent/Snip.",
+    technique="static inference of an inductive loop invariant (Houdini over a linear template family, path enumeration with branch facts, exact LP) in a visible-width abstraction of strings + regexp/syntax shape check",
+    ref="DESIGN.md §4 C13"),
+})
+
 NOT_APPLICABLE = {
-  "C13": "content preservation / line-length bounds of Wrap, DumbWrap, Pad, Indent, Snip are relations between input and output string values for all strings and widths; no sound static argument over the code's shape decides them (DESIGN.md §5)",
   "C14": "per-character attribute sets after arbitrary nesting and layout are string values; the structural facts available (single SGR emitter) are not necessary conditions of this property (DESIGN.md §5)",
 }
 
